@@ -99,6 +99,57 @@ EDGE_BASES = [
 ]
 
 
+#: failing inputs of past findings (reduced forms from the replay files) and close relatives.  They are not valid
+#: files; they go through the oracle unfaulted and with every single systematic fault applied.
+REGRESSION_INPUTS = [
+    ('F1', '2 3 0'),
+    ('F1b', '3 1\n1 1 0\n0\n"A"'),
+    ('F2', '3 1\n-22\n1 1 0\n1 2 0\n1 3 0\n0\n"A"\n"B"\n"C"\n"t"\n'),
+    ('F3', '3 1\n' + '9' * 4400 + ' 1 0\n0\n"A"\n"B"\n"C"\n"t"\n'),
+    ('F5', '3 1\n[withdrawn  3  ]\n4\t2=3=3\t0\n0\n"A"\n"B"\n"C"\n"t"\n'),
+    ('F7', '3' * 300 + ' 1\n1 ' + '9' * 30 + ' 0\n0\n"A"\n"t"\n'),
+    ('F7b', '18446744073709551616 1\n1 18446744073709551616 0\n0\n"A"\n"t"\n'),
+    ('F7c', '70000 1\n1 65536 0\n0\n"A"\n"t"\n'),
+    ('zero-candidates', '0 1 0 0'),
+    ('zero-candidates-b', '0 0 0 title'),
+    ('negative-seats', '3 -1\n1 1 0\n1 2 0\n1 3 0\n0\n"A"\n"B"\n"C"\n"t"\n'),
+    ('lone-quote', '2 1\n1 1 0\n1 2 0\n0\n" A"\n"B"\n"t"\n'),
+    ('open-comment', '2 1\n1 1 0 /* never closed\n1 2 0\n0\n"A"\n"B"\n"t"\n'),
+    ('open-option', '3 2 [tie 3 2'),
+    ('open-name', '2 1\n1 1 0\n1 2 0\n0\n"A"\n"B C'),
+    ('odd-separators', '2 1\x0c1 1 0\u2028x2 2 0\x1c0\x85"A"\r"B"\r"t"'),
+]
+
+#: alphabet of the exhaustive tiny-soup arm: every token sequence up to SOUP_LEN over it is read
+SOUP_ALPHABET = ['0', '1', '2', '3', '-1', '"a"', '"b', 'c"', 'x', '[tie', '[nick', ']', '1]', '(i)', '1=2', '#', '/*', '*/']
+SOUP_LEN = 4
+
+
+def work_soups(R, part, nparts):
+    "exhaustive arm: every sequence of 0..SOUP_LEN tokens over SOUP_ALPHABET (slice part of nparts)"
+    import itertools    # pylint: disable=import-outside-toplevel
+    signal.signal(signal.SIGALRM, _alarm)
+    acc = new_acc()
+    j = 0
+    for n in range(SOUP_LEN + 1):
+        for toks in itertools.product(SOUP_ALPHABET, repeat=n):
+            j += 1
+            if j % nparts != part:
+                continue
+            data = " ".join(toks).encode('utf-8')
+            if acc['probes'].get('hangs', 0) >= 3:
+                continue
+            res = evaluate(R, data, None, 'data' if j % 2 else 'path')
+            if res['outcome'] == 'hang':
+                acc['probes']['hangs'] = acc['probes'].get('hangs', 0) + 1
+            _account(acc, ['tiny-soup'], None, res, True, len(data))
+            for v in res['viol']:
+                if len(acc['viol']) < 40:
+                    acc['viol'].append(_viol_entry(v, 'soup', b'', [['foreign', data.hex()]], None, None, res['entry'],
+                                                   data))
+    return acc
+
+
 def gen_bases(R, seed, tier, count, size_cap):
     """[(name, bytes)]: corpus files not larger than size_cap, then `count` generated files.
 
